@@ -50,10 +50,12 @@ func run(args []string) {
 	shardDepth := fs.Int("sharddepth", 6, "decisions hashed for sharding")
 	fs.Parse(args)
 
-	os.MkdirAll(*work, 0o755)
-	modFile := filepath.Join(*work, "go.mod")
+	modDir := filepath.Join(*work, fmt.Sprintf("mod_%d", os.Getpid()))
+	os.MkdirAll(modDir, 0o755)
+	defer os.RemoveAll(modDir)
+	modFile := filepath.Join(modDir, "go.mod")
 	copyFile(filepath.Join(*repo, "go.mod"), modFile)
-	copyFile(filepath.Join(*repo, "go.sum"), filepath.Join(*work, "go.sum"))
+	copyFile(filepath.Join(*repo, "go.sum"), filepath.Join(modDir, "go.sum"))
 
 	overlay := map[string][]byte{}
 	addDir := func(src, dst string) {
@@ -88,6 +90,7 @@ func run(args []string) {
 	})
 
 	sess, err := interp.Load(interp.LoadOptions{RepoDir: *repo, Pattern: "./" + *pkg, Overlay: overlay, ModFile: modFile, Tags: "verif"})
+	os.RemoveAll(modDir)
 	if err != nil {
 		fmt.Fprintln(os.Stderr, "symgo: load:", err)
 		os.Exit(3)
